@@ -27,6 +27,8 @@ pub struct Layout<'a> {
     pub ivs: Option<ItemVariationStore<'a>>,
     /// largest sum of region scalars seen by device_delta since it was last reset (rounding bound of the caller)
     pub ssum: std::cell::Cell<f64>,
+    /// smallest number of regions referenced by a delta set evaluated since the last reset (usize::MAX = none evaluated)
+    pub nreg: std::cell::Cell<usize>,
 }
 
 fn e<T>(r: Result<T, ReadError>, what: &str) -> Result<T, String> { r.map_err(|x| format!("{what}: {x}")) }
@@ -41,8 +43,12 @@ struct Flags { ignore_base: bool, ignore_lig: bool, ignore_marks: bool, mark_att
 pub struct MarkAttach { pub lookup: u16, pub subtable: usize, pub base: (f64, f64), pub mark: (f64, f64) }
 
 impl<'a> Layout<'a> {
+    pub fn reset_bounds(&self) { self.ssum.set(0.0); self.nreg.set(usize::MAX); }
+    /// rounding bound of the values evaluated since the last reset, for a variation model with `n_regions` non-default masters:
+    /// 0.5 per unit of active scalar, plus 0.5 for every region that was optimised out of the store (its delta rounded to 0)
+    pub fn rounding_bound(&self, n_regions: usize) -> f64 { let listed = if self.nreg.get() == usize::MAX { 0 } else { self.nreg.get() }; 0.5 * (self.ssum.get() + n_regions.saturating_sub(listed) as f64) }
     pub fn new(font: &'a Font<'a>) -> Result<Self, String> {
-        let mut l = Layout { font, glyph_class: BTreeMap::new(), mark_attach: BTreeMap::new(), mark_sets: vec![], ivs: None, ssum: std::cell::Cell::new(0.0) };
+        let mut l = Layout { font, glyph_class: BTreeMap::new(), mark_attach: BTreeMap::new(), mark_sets: vec![], ivs: None, ssum: std::cell::Cell::new(0.0), nreg: std::cell::Cell::new(usize::MAX) };
         if let Ok(gdef) = font.f.gdef() {
             if let Some(cd) = gdef.glyph_class_def() { for (g, c) in e(cd, "GDEF glyph classes")?.iter() { l.glyph_class.insert(g.to_u16(), c); } }
             if let Some(cd) = gdef.mark_attach_class_def() { for (g, c) in e(cd, "GDEF mark attach classes")?.iter() { l.mark_attach.insert(g.to_u16(), c); } }
@@ -60,8 +66,9 @@ impl<'a> Layout<'a> {
                 DeviceOrVariationIndex::VariationIndex(v) => {
                     if coords.is_empty() { return Ok(0.0); }
                     let ivs = self.ivs.as_ref().ok_or("VariationIndex device but GDEF has no ItemVariationStore")?;
-                    let (d, s) = Font::ivs_delta_s(ivs, v.delta_set_outer_index(), v.delta_set_inner_index(), coords)?;
+                    let (d, s, n) = Font::ivs_delta_sn(ivs, v.delta_set_outer_index(), v.delta_set_inner_index(), coords)?;
                     if s > self.ssum.get() { self.ssum.set(s); }
+                    if n < self.nreg.get() { self.nreg.set(n); }
                     Ok(d)
                 }
                 DeviceOrVariationIndex::Device(_) => Ok(0.0),
